@@ -2,7 +2,7 @@
 use super::common::cfg_brief;
 use crate::cfg::{render, CfgSpec, Rend};
 use crate::engine::{Ctx, EnumSub, PropSub, Property, Stats, Tier};
-use crate::util::{cw, short, sw};
+use crate::util::{cw, short};
 use proptest::prelude::*;
 use serde::{Deserialize, Serialize};
 use serde_json::json;
